@@ -130,6 +130,15 @@ def c14d(tree, ob):
         ob.violate(SESS, fv.qual, src(t), 'idle timeout does not start termination with reason idle-timeout', t)
     else:
         ob.site(SESS, t, 'idle timeout -> SESS_TERM(IDLE_TIMEOUT)')
+    # sending the SESS_TERM re-arms the idle timer (send_message -> _idle_reset): the expired timer must be cleared
+    # before, never after, or the endpoint that hears nothing further never closes
+    stops = method_calls(fv.func, '_idle_stop', 'self')
+    after = [s for s in stops if fv.node(s) in fv.cfg.reachable([fv.node(t)])]
+    if after:
+        ob.violate(SESS, fv.qual, '{} after {}'.format(src(after[0]), src(t)[:40]), 'the idle timer that the SESS_TERM send has just re-armed is cancelled again: '
+                   'an endpoint whose peer stays silent never reaches the second timeout that closes it', after[0])
+    else:
+        ob.site(SESS, t, 'no idle-timer stop after the SESS_TERM send')
     rets = [r for r in walk_local(fv.func) if isinstance(r, ast.Return)]
     if any(r.value is not None and isinstance(r.value, ast.Constant) and r.value.value for r in rets):
         ob.violate(SESS, fv.qual, 'return True', 'idle timeout handler keeps itself armed', rets[0])
